@@ -127,3 +127,18 @@ Proof.
       rewrite (reinsert_all_occupied _ t k0 H0) in C; [discriminate | congruence]. }
     destruct (reinsert_all_spec _ t W Free) as [t2 [R S]]. rewrite R in C. inversion C; subst. exact S.
 Qed.
+
+(* ---- the window between the validation read and the compensating statement ---- *)
+(* the validation read is a locking read and a result set that breaks off is an error (regenerated) *)
+Lemma validation_read_locks : exec_check_locks = true /\ exec_read_errors_checked = true.
+Proof. split; reflexivity. Qed.
+
+(* the verdict depends on nothing but the rows that read returned and locked: whatever other sessions
+   write elsewhere between the validation and the compensation cannot change it (and writes to the
+   rows it read wait for the rollback transaction) *)
+Theorem validate_window dv img t u :
+  (forall k, In k (check_keys img) -> lookup k t = lookup k u) ->
+  validate dv img t = validate dv img u.
+Proof.
+  intro H. unfold validate. rewrite (current_of_ext (check_keys img) t u H). reflexivity.
+Qed.
